@@ -193,3 +193,114 @@ theorem runRoot_for_range (P : Prims) (O : OutPrims) (cfg : Cfg) (fs : FS) (fuel
   unfold runRoot
   rw [frender_single, Prog.runPure_bind, hrun]
   simp [restoreFrom, wrapFailAt, M.mapFail, flushM, Prog.mapFail, Prog.bind, Prog.runPure]
+
+/-! ## The modifiers ` reversed`, ` offset: o`, ` limit: l` with integer literals -/
+
+def kwOffsetC : Bytes := kwOffset ++ [58]
+def kwLimitC : Bytes := kwLimit ++ [58]
+
+/-- the pieces of ` reversed offset: o limit: l` (in this order, each optional) -/
+def modsPieces (rev : Bool) (off lim : Option Int) : List Piece :=
+  (if rev then [⟨[32], .rIdent, kwReversed⟩] else []) ++
+  ((match off with | some o => [⟨[32], .rKeyword, kwOffsetC⟩, ⟨[32], .rInt, intDec o⟩] | none => []) ++
+   (match lim with | some l => [⟨[32], .rKeyword, kwLimitC⟩, ⟨[32], .rInt, intDec l⟩] | none => []))
+
+/-- the text ` reversed offset: o limit: l` -/
+def modsText (rev : Bool) (off lim : Option Int) : Bytes := Piece.src (modsPieces rev off lim)
+
+theorem lexeme_reversed : Lexeme .rIdent kwReversed :=
+  Lexeme.word 114 [101, 118, 101, 114, 115, 101, 100] [] (by decide) (by decide) (Or.inl rfl)
+theorem lexeme_offsetC : Lexeme .rKeyword kwOffsetC :=
+  Lexeme.keyword 111 [102, 102, 115, 101, 116] [] (by decide) (by decide) (Or.inl rfl)
+theorem lexeme_limitC : Lexeme .rKeyword kwLimitC :=
+  Lexeme.keyword 108 [105, 109, 105, 116] [] (by decide) (by decide) (Or.inl rfl)
+
+/-- pieces that each start with one blank are well spaced in front of the closing `;` -/
+theorem wellSpaced_spaceLed : ∀ (ps : List Piece), (∀ p ∈ ps, p.ws = [32] ∧ Lexeme p.rule p.text) →
+    WellSpaced (ps ++ [semiPiece []])
+  | [], _ => ⟨rfl, lexeme_semi, rfl, trivial⟩
+  | p :: ps, h => by
+    obtain ⟨hw, hl⟩ := h p (List.mem_cons_self ..)
+    refine ⟨by rw [hw]; rfl, hl, ?_, wellSpaced_spaceLed ps (fun q hq => h q (List.mem_cons_of_mem _ hq))⟩
+    cases ps with
+    | nil => exact fits_break _ _ 59 [] hl (by decide)
+    | cons q qs =>
+      have hq := (h q (by simp)).1
+      show fits p.rule p.text (q.ws ++ q.text ++ Piece.src (qs ++ [semiPiece []])) = true
+      rw [hq]
+      exact fits_break _ _ 32 _ hl (by decide)
+
+theorem modsPieces_spaceLed (rev : Bool) (off lim : Option Int) :
+    ∀ p ∈ modsPieces rev off lim, p.ws = [32] ∧ Lexeme p.rule p.text := by
+  intro p hp
+  unfold modsPieces at hp
+  simp only [List.mem_append] at hp
+  rcases hp with hp | hp | hp
+  · split at hp
+    · simp only [List.mem_singleton] at hp; subst hp; exact ⟨rfl, lexeme_reversed⟩
+    · cases hp
+  · cases off with
+    | none => cases hp
+    | some o =>
+      simp only [List.mem_cons, List.mem_nil_iff, or_false] at hp
+      rcases hp with rfl | rfl
+      · exact ⟨rfl, lexeme_offsetC⟩
+      · exact ⟨rfl, lexeme_intDec o⟩
+  · cases lim with
+    | none => cases hp
+    | some l =>
+      simp only [List.mem_cons, List.mem_nil_iff, or_false] at hp
+      rcases hp with rfl | rfl
+      · exact ⟨rfl, lexeme_limitC⟩
+      · exact ⟨rfl, lexeme_intDec l⟩
+
+/-- the range pieces in front of any well-spaced tail -/
+theorem rangePieces_tail_ok (ivar : Bytes) (a b : Int) (hiv : Lexeme .rIdent ivar) (tail : List Piece) (ht : WellSpaced tail) :
+    WellSpaced (rangePieces ivar a b ++ tail) := by
+  refine ⟨rfl, Lexeme.selLoop, rfl, rfl, hiv, ?_, rfl, ?_, ?_, rfl, Lexeme.punct 40 (by decide), ?_, rfl, lexeme_intDec a, ?_,
+    rfl, Lexeme.dotdot, rfl, rfl, lexeme_intDec b, ?_, rfl, Lexeme.punct 41 (by decide), ?_, ht⟩
+  · exact fits_break _ _ 32 _ hiv (by decide)
+  · exact Lexeme.word 105 [110] [] (by decide) (by decide) (Or.inl rfl)
+  · exact fits_break _ _ 32 _ (Lexeme.word 105 [110] [] (by decide) (by decide) (Or.inl rfl)) (by decide)
+  · rfl
+  · rfl
+  · rfl
+  · rfl
+
+/-- **the arguments `i in (a..b) reversed offset: o limit: l`** (each modifier optional) -/
+theorem parse_rangeArgs_mods (ivar : Bytes) (a b : Int) (rev : Bool) (off lim : Option Int) (hiv : Lexeme .rIdent ivar)
+    (ha : IntKind.i64.inRange a = true) (hb : IntKind.i64.inRange b = true)
+    (hoff : ∀ o, off = some o → IntKind.i64.inRange o = true) (hlim : ∀ l, lim = some l → IntKind.i64.inRange l = true) :
+    parseStatement kwLoop (rangeArgs ivar a b ++ modsText rev off lim) =
+      .ok (.loop ivar (.range (.lit (.int .int a)) (.lit (.int .int b)))
+        { reversed := rev, offset := off.map (fun o => .lit (.int .int o)), limit := lim.map (fun o => .lit (.int .int o)) }) := by
+  unfold parseStatement
+  have hsrc : kwLoop ++ (rangeArgs ivar a b ++ modsText rev off lim) =
+      Piece.src (rangePieces ivar a b ++ modsPieces rev off lim) ++ [] := by
+    rw [src_append, List.append_nil, ← List.append_assoc, ← rangePieces_src, List.append_nil]
+    rfl
+  have hws : WellSpaced ((rangePieces ivar a b ++ modsPieces rev off lim) ++ [semiPiece []]) := by
+    rw [List.append_assoc]
+    exact rangePieces_tail_ok ivar a b hiv _ (wellSpaced_spaceLed _ (modsPieces_spaceLed rev off lim))
+  rw [hsrc, parseSource_pieces _ [] hws]
+  cases off with
+  | none =>
+    cases lim with
+    | none =>
+      cases rev <;> simp only [rangePieces, modsPieces, List.map_cons, List.map_nil, Piece.lexeme, List.cons_append, List.nil_append,
+      List.append_nil, lexemeToks, mkTok_intDec a ha, mkTok_intDec b hb, Bool.false_eq_true, if_false, if_true] <;> simp only [mkTok, consTok, parseOfLex] <;> rfl
+    | some l =>
+      have hl := hlim l rfl
+      cases rev <;> simp only [rangePieces, modsPieces, List.map_cons, List.map_nil, Piece.lexeme, List.cons_append, List.nil_append,
+      List.append_nil, lexemeToks, mkTok_intDec a ha, mkTok_intDec b hb, Bool.false_eq_true, if_false, if_true, mkTok_intDec l hl] <;> simp only [mkTok, consTok, parseOfLex] <;> rfl
+  | some o =>
+    have ho := hoff o rfl
+    cases lim with
+    | none =>
+      cases rev <;> simp only [rangePieces, modsPieces, List.map_cons, List.map_nil, Piece.lexeme, List.cons_append, List.nil_append,
+      List.append_nil, lexemeToks, mkTok_intDec a ha, mkTok_intDec b hb, Bool.false_eq_true, if_false, if_true, mkTok_intDec o ho] <;> simp only [mkTok, consTok, parseOfLex] <;> rfl
+    | some l =>
+      have hl := hlim l rfl
+      cases rev <;> simp only [rangePieces, modsPieces, List.map_cons, List.map_nil, Piece.lexeme, List.cons_append, List.nil_append,
+      List.append_nil, lexemeToks, mkTok_intDec a ha, mkTok_intDec b hb, Bool.false_eq_true, if_false, if_true, mkTok_intDec o ho, mkTok_intDec l hl] <;>
+        simp only [mkTok, consTok, parseOfLex] <;> rfl
